@@ -177,6 +177,11 @@ class Node:
         Returns:
             True iff the attribute is present.
         """
+        if not isinstance(self.yaml_node, yaml.MappingNode):
+            # has_attribute_type() and the ..._attribute_to_...()
+            # functions promise to do nothing if there is no such
+            # attribute, also when given a scalar or a sequence
+            return False
         return any([
             key_node.value == attribute for key_node, _ in self.yaml_node.value
         ])
@@ -431,6 +436,8 @@ class Node:
         accept dashes in identifiers, while some YAML-based formats use
         dashes in their keys.
         """
+        if not isinstance(self.yaml_node, yaml.MappingNode):
+            return
         for key_node, _ in self.yaml_node.value:
             if isinstance(key_node, yaml.ScalarNode):
                 key_node.value = key_node.value.replace('_', '-')
@@ -443,6 +450,8 @@ class Node:
         accept dashes in identifiers, while some YAML-based file
         formats use dashes in their keys.
         """
+        if not isinstance(self.yaml_node, yaml.MappingNode):
+            return
         for key_node, _ in self.yaml_node.value:
             if isinstance(key_node, yaml.ScalarNode):
                 key_node.value = key_node.value.replace('-', '_')
